@@ -55,6 +55,16 @@ pub fn read_ndjson(path: &str) -> Vec<Value> {
         .collect()
 }
 
+/// the lines of an ndjson file one at a time (the thorough universes have millions of cases)
+pub fn stream_ndjson(path: &str) -> impl Iterator<Item = Value> {
+    let file = File::open(path).unwrap_or_else(|e| panic!("open {path}: {e}"));
+    BufReader::new(file)
+        .lines()
+        .map(|l| l.unwrap())
+        .filter(|l| !l.trim().is_empty())
+        .map(|l| serde_json::from_str(&l).unwrap_or_else(|e| panic!("bad json line {l}: {e}")))
+}
+
 pub struct Out(BufWriter<File>);
 
 impl Out {
